@@ -246,6 +246,21 @@ def wrapper_impl(facts):
     f = fn_of(v.new[0][2])
     wty = f["args"][0] if f["args"] else ""
     imps = [i for i in facts.bin.impls if i.get("trait") == "std::io::Write" and i.get("self_adt")]
+    if re.match(r"^[A-Z][A-Za-z0-9]*$", wty):
+        # the translator is built inside a generic helper (`Session::<W>::new`): the sink type is bound by
+        # the generic arguments of the call sites leading there
+        node = v.new[0][0]
+        path = node[0]
+        for k_ in range(len(path), 0, -1):
+            caller_id, cbb, _ = path[k_ - 1]
+            cb = v.sup.body_of((path[: k_ - 1], 0)) if k_ - 1 > 0 else v.sup.root
+            cf = fn_of(cb.blocks[cbb]["term"]) or {}
+            cands = [a for a in cf.get("args", []) if any(i["self_adt"] in a for i in imps)]
+            if not cands:
+                cands = [cb.local_ty(a["p"]["l"]) for a in cb.blocks[cbb]["term"]["args"] if is_place(a) and any(i["self_adt"] in cb.local_ty(a["p"]["l"]) for i in imps)]
+            if cands:
+                wty = cands[0]
+                break
     used = [i for i in imps if i["self_adt"] in wty]
     return m, wty, used, imps
 
